@@ -1,6 +1,7 @@
 package props
 
 import (
+	"strings"
 	"fmt"
 	"testing"
 
@@ -82,6 +83,52 @@ func checkRefusal(c refusalCase) error {
 		} else {
 			err = s.Verify(spyV, []byte{0x40}, payload, ext)
 		}
+	case "Csig/Sign1", "Csig0/Sign1", "Csig/Sign", "Csig0/Sign", "Csig/Sign1-value", "Csig0/Sign-value":
+		// a countersignature (full / abbreviated) over a parent whose payload / signature is as the case says
+		var parent any
+		switch {
+		case strings.Contains(c.Kind, "/Sign1"):
+			p := &cose.Sign1Message{Headers: hdr(), Payload: payload, Signature: sig}
+			parent = p
+			if strings.HasSuffix(c.Kind, "-value") {
+				parent = *p
+			}
+		default:
+			p := &cose.SignMessage{Headers: cose.Headers{Protected: cose.ProtectedHeader{}}, Payload: payload, Signatures: []*cose.Signature{{Headers: hdr(), Signature: []byte{1, 2, 3}}}}
+			parent = p
+			if strings.HasSuffix(c.Kind, "-value") {
+				parent = *p
+			}
+		}
+		abbrev := strings.HasPrefix(c.Kind, "Csig0")
+		switch {
+		case abbrev && c.Op == "sign":
+			_, err = cose.Countersign0(rnd, spyS, parent, ext)
+		case abbrev:
+			err = cose.VerifyCountersign0(spyV, parent, ext, []byte{4, 5, 6})
+		case c.Op == "sign":
+			err = (&cose.Countersignature{Headers: hdr()}).Sign(rnd, spyS, parent, ext)
+		default:
+			err = (&cose.Countersignature{Headers: hdr(), Signature: []byte{4, 5, 6}}).Verify(spyV, parent, ext)
+		}
+		if strings.Contains(c.Kind, "/Sign1") {
+			// a COSE_Sign1 parent must itself be signed (its signature is part of what is countersigned)
+			if c.Signature != "set" && c.Payload != "nil" {
+				if err == nil || spyS.NCalls()+spyV.NCalls() != 0 {
+					return finding("unsigned-parent-countersigned", "%+v: a countersignature operation over an unsigned COSE_Sign1 proceeds (err=%v, key invoked %d times)", c, err, spyS.NCalls()+spyV.NCalls())
+				}
+				stats.Class("refused/countersign/unsigned-parent")
+				return nil
+			}
+		}
+		if c.Payload != "nil" {
+			if err != nil {
+				return finding("refuses-complete-message", "%+v: %v", c, err)
+			}
+			stats.Class("proceeds/countersign/" + c.Op)
+			return nil
+		}
+		c.Signature = "set" // (payload-less parent: judged by the rules below)
 	}
 	calls := spyS.NCalls() + spyV.NCalls()
 	desc := fmt.Sprintf("%+v", c)
@@ -124,13 +171,16 @@ func init() { register("refusal", checkRefusal) }
 
 func runRefusals(t *testing.T, ops []string) int {
 	n := 0
-	for _, kind := range []string{"Sign1", "Untagged", "Sign", "Signature"} {
+	for _, kind := range []string{"Sign1", "Untagged", "Sign", "Signature", "Csig/Sign1", "Csig0/Sign1", "Csig/Sign", "Csig0/Sign", "Csig/Sign1-value", "Csig0/Sign-value"} {
 		for _, op := range ops {
 			for _, p := range []string{"nil", "empty", "set"} {
 				for _, sg := range []string{"nil", "empty", "set"} {
 					for _, ext := range []bool{false, true} {
-						if op == "sign" && sg != "nil" {
+						if op == "sign" && sg != "nil" && !strings.HasPrefix(kind, "Csig") {
 							continue // signing over an existing signature is not the subject here
+						}
+						if strings.HasPrefix(kind, "Csig") && strings.Contains(kind, "/Sign") && !strings.Contains(kind, "/Sign1") && sg != "set" {
+							continue // (a COSE_Sign parent: its signers are not part of what is countersigned)
 						}
 						c := refusalCase{Kind: kind, Op: op, Payload: p, Signature: sg, Ext: ext}
 						n++
